@@ -6,14 +6,58 @@ import re
 
 import apicheck as A
 import htmlobs as HO
+import imgconv as IC
 from gen_docx import el, REL
 
 BROWSER = {"image/png", "image/gif", "image/jpeg", "image/svg+xml", "image/tiff"}
 BUILTIN = {"png": "png", "gif": "gif", "jpeg": "jpeg", "jpg": "jpeg", "tif": "tiff", "tiff": "tiff", "bmp": "bmp"}
 
 
-def image_case(seed, big=False):
+def respell_type(rng, t):
+    """the same media type as a package may spell it: other letter case, surrounding / inner white space, empty.
+    The property speaks of the type the package DECLARES: it is passed on character for character."""
+    how = rng.choice(["upper", "title", "mixed", "subtype-upper", "lead", "trail", "both", "tab", "inner", "empty"])
+    if how == "upper":
+        return t.upper()
+    if how == "title":
+        return t[:1].upper() + t[1:]
+    if how == "mixed":
+        return "".join(c.upper() if rng.random() < 0.5 else c for c in t)
+    if how == "subtype-upper":
+        a, _, b = t.partition("/")
+        return a + "/" + b.upper()
+    if how == "lead":
+        return " " + t
+    if how == "trail":
+        return t + rng.choice([" ", "  ", "\n"])
+    if how == "both":
+        return " " + t.upper() + " "
+    if how == "tab":
+        return "\t" + t + "\r\n"
+    if how == "inner":
+        return t.replace("/", rng.choice([" /", "/ ", " / "]))
+    return ""
+
+
+def picture_node(rng, rid, k, T):
+    """one more drawing for relationship `rid`: (node, alt text the property prescribes, is VML)"""
+    kind = rng.choice(["inline", "anchor", "vml"])
+    descr, title = rng.choice([None, "", "  ", T("descr %d" % k)]), rng.choice([None, T("title %d" % k)])
+    if kind == "vml":
+        attrs = [("r:id", rid)] + ([("o:title", title)] if title is not None else [])
+        return el("w:pict", [], [el("v:shape", [], [el("v:imagedata", attrs)])]), title, True
+    docpr = ([("descr", descr)] if descr is not None else []) + ([("title", title)] if title is not None else [])
+    node = el("w:drawing", [], [el("wp:" + kind, [], [el("wp:docPr", docpr), el("a:graphic", [], [el("a:graphicData", [], [el("pic:pic", [], [
+        el("pic:blipFill", [], [el("a:blip", [("r:embed", rid)])])])])])])])
+    return node, (descr if (descr or "").strip() else title), False
+
+
+def image_case(seed, big=False, texts=None, odd_types=False):
+    """texts: None, or a function without arguments that supplies the description / title strings (hostile strings for C02);
+    odd_types: declare some media types in other spellings (letter case, white space; the CLI check, which turns the subtype
+    into a file name, keeps the plain ones)"""
     rng = random.Random(seed)
+    T = (lambda s: s) if texts is None else (lambda s: texts())
     n = rng.randint(1, 4)
     imgs, runs, rels, parts = [], [], [], []
     defaults, overrides = [], []
@@ -22,6 +66,10 @@ def image_case(seed, big=False):
             # the same picture placed again: same relationship, same alt text, same part (a logo repeated on every page);
             # still one img / one converter call per occurrence
             prev = dict(imgs[-1])
+            if rng.random() < 0.6:
+                # ... or described differently this time (another caption, or none at all): same relationship and part, own alt text
+                node2, alt2, vml2 = picture_node(rng, prev["rid"], k, T)
+                prev.update(node=node2, alt=alt2, vml=vml2)
             runs.append(el("w:r", [], [el("w:t", [], ["t%d" % k]), prev["node"]]))
             imgs.append(prev)
             continue
@@ -32,6 +80,9 @@ def image_case(seed, big=False):
         data = bytes(range(256)) if size == 256 else bytes(rng.randrange(256) for _ in range(size))
         how = rng.choice(["override", "default", "default-lower", "none", "both"])
         declared = rng.choice(["image/png", "image/jpeg", "image/pjpeg", "image/x-emf", "image/svg+xml", "image/x-ms-bmp"])
+        if rng.random() < 0.3:
+            respelt = respell_type(rng, declared)
+            declared = respelt if odd_types else declared
         expected_ct = None
         if how in ("override", "both"):
             overrides.append(("/" + name, declared))
@@ -50,7 +101,7 @@ def image_case(seed, big=False):
         target = rng.choice(["media/%s.%s" % (stem, ext), "/" + name])
         rels.append([rid, REL + "image", target])
         kind = rng.choice(["inline", "anchor", "vml"])
-        descr, title = rng.choice([None, "", "  ", "descr %d" % k]), rng.choice([None, "title %d" % k])
+        descr, title = rng.choice([None, "", "  ", T("descr %d" % k)]), rng.choice([None, T("title %d" % k)])
         if kind == "vml":
             attrs = [("r:id", rid)] + ([("o:title", title)] if title is not None else [])
             node = el("w:pict", [], [el("v:shape", [], [el("v:imagedata", attrs)])])
@@ -62,7 +113,7 @@ def image_case(seed, big=False):
             alt = descr if (descr or "").strip() else title
         runs.append(el("w:r", [], [el("w:t", [], ["t%d" % k]), node]))
         parts.append({"name": name, "hex": data.hex()})
-        imgs.append({"bytes": data, "ct": expected_ct, "alt": alt, "name": name, "ext": ext, "vml": kind == "vml", "node": node})
+        imgs.append({"bytes": data, "ct": expected_ct, "alt": alt, "name": name, "ext": ext, "vml": kind == "vml", "node": node, "rid": rid})
     # the declared type, read off the final tables: override by part name, else default by exact
     # extension (last declaration wins), else the built-in table for common image extensions
     ov, df = dict(overrides), {}
@@ -84,6 +135,7 @@ def image_case(seed, big=False):
     if conv != "default":
         opts["imageConv"] = {"kind": "fixed", "attrs": [["src", "custom.png"]] + ([["alt", "from converter"]] if rng.random() < 0.5 else []) + ([["class", "c<"]] if rng.random() < 0.3 else []),
                              "open": conv == "fixed-open"}
+        IC.vary_converter(rng, opts["imageConv"])
     return {"parts": parts, "options": opts, "key": "c17-%d" % seed, "imgs": imgs, "noshrink": True, "features": [conv]}
 
 
@@ -140,15 +192,18 @@ def project(r, case):
 
 def run(out, tier, seed, model_ok):
     n = common.deepen(1200 if tier == "quick" else 12000)
-    cs = [image_case(seed * 1000003 + i, big=(tier == "thorough" or i % 100 == 0)) for i in range(n)]
-    run_ = A.ApiRun(out, "C17", model_ok, project, observers=[intact], name="images")
+    cs = [image_case(seed * 1000003 + i, big=(tier == "thorough" or i % 100 == 0), odd_types=True) for i in range(n)]
+    run_ = A.ApiRun(out, "C17", model_ok, project, observers=[intact, IC.prescribed], name="images")
     run_.run(cs, nontrivial=lambda c, r: len(c["imgs"]) >= 1)
+    # one converter object (possibly remembering its results) used for several consecutive conversions
+    IC.sequences(out, "C17", cs, random.Random(seed * 7919 + 17), [intact, IC.prescribed], common.deepen(120 if tier == "quick" else 1500))
     cs2 = A.gen_cases(seed + 3, n // 4, dict(p_image=0.5, p_altcontent=0.15, p_table=0.15, style_map=0.2), tag="c17g-")
     run2 = A.ApiRun(out, "C17", model_ok, project, name="general")
     run2.run(cs2, nontrivial=lambda c, r: any(f.startswith("image") for f in c["features"]))
     out.rule = ("documents with 1-4 images (inline, anchored, VML) whose bytes range over empty / tiny / all 256 byte values / >64 KiB, targets relative and absolute, "
                 "extension letter case varied, content type given by override / default (exact or lower-case) / neither, alt from descr / blank descr / title, default and "
-                "custom converters (opening or not); observation: one img per image in document order, data URI decodes (strict base64) to exactly the part's bytes under "
+                "custom converters (opening or not; returning a new dict, one constant dict, or a remembered dict per picture; numbering; one converter object over consecutive conversions), "
+                "declared types in odd spellings (letter case, surrounding white space, empty), a repeated picture described differently; observation: one img per image in document order, data URI decodes (strict base64) to exactly the part's bytes under "
                 "the declared type, alt precedence, converter called once per image in order with that type and those bytes; also compared with the Lean model; "
                 "non-trivial = at least one image")
     out.extra["features"] = run_.stats
@@ -157,4 +212,6 @@ def run(out, tier, seed, model_ok):
 
 def replay(out, payload, model_ok):
     case = payload["case"]
-    A.replay_case(out, "C17", model_ok, payload, project)
+    if case.get("kind") == "image-sequence":
+        return IC.replay_sequence(out, payload, [intact, IC.prescribed])
+    A.replay_case(out, "C17", model_ok, payload, project, [IC.prescribed])
